@@ -24,10 +24,12 @@ FullFailures(ev) ==
       \* a response that already carries the version's digest header cannot be MI-encoded again (one digest value,
       \* one algorithm: the verifier reads a single "alg=value"); the library must refuse it up front
       pre == HGet(xin.resph, DigestHeaderName(xin)) # <<>>
-  IN IF pre THEN (IF ev.signerr = "mi" THEN {} ELSE {"signer refused"})
+  \* ev.regen: the exchange was obtained from ReadExchange, edited and signed again without an MI step (nothing to say
+  \* about how payload and digest header came about; everything else is judged as for a first-generation exchange)
+  IN IF ~ev.regen /\ pre THEN (IF ev.signerr = "mi" THEN {} ELSE {"signer refused"})
      ELSE IF ev.signerr # "" THEN {"signer refused"}
      ELSE
-       (IF x.payload = enc.stream /\ HSet(x.resph) = HSet(want) /\ x.uri = xin.uri /\ x.status = xin.status
+       (IF ev.regen THEN {} ELSE IF x.payload = enc.stream /\ HSet(x.resph) = HSet(want) /\ x.uri = xin.uri /\ x.status = xin.status
            /\ x.method = xin.method /\ HSet(x.reqh) = HSet(xin.reqh) THEN {} ELSE {"MiEncodePayload"})
   \cup (IF HeadersEncodable(x) THEN (IF ~ev.hdrerr /\ ev.hdrs = hc THEN {} ELSE {"header CBOR"})
         ELSE (IF ev.hdrerr THEN {} ELSE {"colliding header names serialised"}))
@@ -52,7 +54,7 @@ FullFailures(ev) ==
                \* a request URL outside the plain grammar: whether net/url takes it is not specified here, so only
                \* soundness is demanded (accepted => every condition holds)
                exact == UrlClass((IF v.phase = "mem" THEN x ELSE ev.x2).uri) = "ok"
-           IN ~(~v.panic /\ (IF exact THEN v.ok = a.ok ELSE (v.ok => a.ok)) /\ (v.ok => (v.ret = a.payload /\ v.ret = xin.payload))) } }
+           IN ~(~v.panic /\ (IF exact THEN v.ok = a.ok ELSE (v.ok => a.ok)) /\ (v.ok => (v.ret = a.payload /\ (ev.regen \/ v.ret = xin.payload)))) } }
 
 \* ---- kind "ver"
 VerFailures(ev) ==
